@@ -27,7 +27,9 @@ type Raw struct {
 	Name   string `json:"name,omitempty"`
 }
 
-func (r Raw) String() string { return fmt.Sprintf("{wd=%d %s %q c=%d}", r.Wd, MaskString(r.Mask), r.Name, r.Cookie) }
+func (r Raw) String() string {
+	return fmt.Sprintf("{wd=%d %s %q c=%d}", r.Wd, MaskString(r.Mask), r.Name, r.Cookie)
+}
 
 // Ev is one portable event as the consumer sees it.
 type Ev struct {
@@ -50,11 +52,12 @@ type SW struct {
 	Pino           uint64 // inode of the directory holding the watched entry at Add time
 	Base           string // its name there
 	ParentReported bool   // a watch on that directory reported IN_DELETE for it
+	Overwritten    bool   // a watch on that directory reported IN_MOVED_TO onto its name (rename-overwrite: no IN_DELETE follows)
 	Recurse        bool
 }
 
 type D5 struct {
-	Kind string `json:"kind"` // late-parent-add | parent-other-spelling
+	Kind string `json:"kind"` // late-parent-add | overwritten-by-rename | parent-other-spelling
 	Path string `json:"path"`
 }
 
@@ -223,11 +226,15 @@ func OpsOf(mask uint32) fsnotify.Op {
 func (s *Shadow) Translate(batch []Raw) (out []Ev) {
 	// which file watches had their removal reported by a watch on their directory?
 	for _, r := range batch {
-		if r.Mask&unix.IN_DELETE != 0 {
+		if r.Mask&(unix.IN_DELETE|unix.IN_MOVED_TO) != 0 {
 			if pw, ok := s.W[r.Wd]; ok {
 				for _, fw := range s.W {
 					if fw.Pino == pw.Ino && fw.Base == r.Name {
-						fw.ParentReported = true
+						if r.Mask&unix.IN_DELETE != 0 {
+							fw.ParentReported = true
+						} else {
+							fw.Overwritten = true
+						}
 					}
 				}
 			}
@@ -266,7 +273,9 @@ func (s *Shadow) Translate(batch []Raw) (out []Ev) {
 		if r.Mask&unix.IN_DELETE_SELF != 0 {
 			_, lexical := s.ByPath[filepath.Dir(w.Path)]
 			if lexical != w.ParentReported && !s.Recursive {
-				if lexical {
+				if lexical && w.Overwritten {
+					s.D5s = append(s.D5s, D5{"overwritten-by-rename", w.Path})
+				} else if lexical {
 					s.D5s = append(s.D5s, D5{"late-parent-add", w.Path})
 				} else {
 					s.D5s = append(s.D5s, D5{"parent-other-spelling", w.Path})
